@@ -84,7 +84,8 @@ func (b *bEnv) Eval(x ast.Expr) bVal {
 			}
 		}
 		if n.Name == strings.ToUpper(n.Name) {
-			return bScalar{App("K."+n.Name, SInt)}
+			// abstract constants (distribution names ...) are pairwise distinct
+			return bScalar{ConstI(abstractConst(n.Name))}
 		}
 		panic(verr("spec(B): unknown identifier %s", n.Name))
 	case *ast.UnaryExpr:
@@ -244,6 +245,8 @@ func (b *bEnv) call(n *ast.CallExpr) bVal {
 		return bScalar{b.ghostSel("val", arg(0))}
 	case "mexp":
 		return bScalar{b.ghostSel("mexp", arg(0))}
+	case "uni":
+		return bScalar{Eq(b.ghostSel("uni", arg(0)), ConstI(1))}
 	case "dom":
 		return bScalar{b.ghostSel("ntt", arg(0))}
 	case "isntt":
@@ -286,8 +289,10 @@ func (b *bEnv) call(n *ast.CallExpr) bVal {
 		case *bIface:
 			if a.isNil {
 				known, t = true, TTrue
-			} else if a.val != nil {
+			} else if a.val != nil || a.dyn != nil {
 				known, t = true, TFalse
+			} else if a.sym != "" {
+				known, t = true, b.state().norm(Var(a.sym+".isnil", SBool))
 			}
 		}
 		if !known {
@@ -343,4 +348,15 @@ func (e *bEngine) objectIdentity(st *bState, v bVal, x ast.Expr) int {
 		}
 	}
 	panic(verr("spec(B): %s does not denote an object", exprString(x)))
+}
+
+var abstractConsts = map[string]int64{"XE": 9001, "XS": 9002, "UNIFORM": 9003, "XSMUDGE": 9004}
+
+func abstractConst(name string) int64 {
+	if v, ok := abstractConsts[name]; ok {
+		return v
+	}
+	v := int64(9100 + len(abstractConsts))
+	abstractConsts[name] = v
+	return v
 }
